@@ -316,6 +316,33 @@ def fmt(ctx: Any) -> List[Ob]:
         if o.construct.startswith('remaining=None'):
             o.rule = R
             obs.append(o)
+    # where a datagram goes: the address and port handed to the socket are the ones given -- the querier's for a unicast reply --
+    # and the mDNS group of the socket's family and port 5353 when none is given
+    tx = next((f_ for f_ in prog.functions.values() if any(isinstance(c_, ast.Call) and call_name(c_) == 'sendto' for c_ in walk_local_ordered(f_.node))), None)
+    if tx is None:
+        raise AnalysisError('anchor vanished: the function that hands datagrams to a socket (sendto)')
+    p_addr = next((p_ for p_ in tx.params if p_ == 'addr' or 'addr' in p_), None)
+    p_port = next((p_ for p_ in tx.params if p_ == 'port' or p_.endswith('_port')), None)
+    if p_addr is None or p_port is None:
+        raise AnalysisError('anchor vanished: address / port parameters of the transmit primitive')
+    grp4, grp6, mport = prog.const('zeroconf.const', '_MDNS_ADDR'), prog.const('zeroconf.const', '_MDNS_ADDR6'), prog.const('zeroconf.const', '_MDNS_PORT')
+
+    def eff_tx(node: Any, evl: Any) -> List[Any]:
+        out_ = []
+        for c_ in fd.node_calls(node, evl):
+            if call_name(c_) == 'sendto' and len(c_.args) >= 2 and isinstance(c_.args[1], ast.Tuple) and len(c_.args[1].elts) >= 2:
+                a_, p__ = evl.ev(c_.args[1].elts[0]), evl.ev(c_.args[1].elts[1])
+                out_.append(('DST', 'UNKNOWN' if a_ is fd.UNKNOWN else a_, 'UNKNOWN' if p__ is fd.UNKNOWN else p__))
+        return out_
+
+    for given in (True, False):
+        for v6 in (True, False):
+            for port_v in (0, 40000):
+                atoms_tx = {p_addr: '192.0.2.7' if given else None, p_port: port_v, '.is_ipv6': v6, 'can_send_to()': True, 'log_debug': False, 'v6_flow_scope': ()}
+                oc_tx, und_tx = traces(ctx, tx, atoms_tx, eff_tx)
+                dst = {x[1:] for t in oc_tx for x in t if isinstance(x, tuple) and x[0] == 'DST'}
+                want_dst = ('192.0.2.7' if given else (grp6 if v6 else grp4), port_v or mport)
+                obs.append(ob(R, tx, f'address {"given" if given else "not given"}, {"IPv6" if v6 else "IPv4"} socket, port {port_v or "not given"}', f'the datagram is handed to the socket for {want_dst}', dst == {want_dst}, f'destinations on the feasible paths: {sorted(map(str, dst))}; undecided {und_tx}'))
     uni = prog.func('zeroconf._handlers.answers.construct_outgoing_unicast_answers')
     c = next(c for f, c in sites if f is uni)
     obs.append(ob(R, uni, c, 'the unicast reply carries the id of the query', len(c.args) == 3 and norm(c.args[2]) == uni.params[3]))
